@@ -442,11 +442,34 @@ func (x *Ctx) integerCompareExact(r2b string) {
 			}}
 			var bad ssa.Instruction
 			eng.Explore(eng.Query{Fn: cf, Assume: as, TrackPhi: func(*ssa.Phi) bool { return true }, Classify: func(in ssa.Instruction, _ eng.Facts) eng.Event {
-				if cv, ok := in.(*ssa.Convert); ok {
+				intToFloat := func(i2 ssa.Instruction) bool {
+					cv, ok := i2.(*ssa.Convert)
+					if !ok {
+						return false
+					}
 					from, ok1 := cv.X.Type().Underlying().(*types.Basic)
 					to, ok2 := cv.Type().Underlying().(*types.Basic)
-					if ok1 && ok2 && from.Info()&types.IsInteger != 0 && to.Info()&types.IsFloat != 0 {
-						bad = in
+					return ok1 && ok2 && from.Info()&types.IsInteger != 0 && to.Info()&types.IsFloat != 0
+				}
+				if intToFloat(in) {
+					bad = in
+				}
+				// …or inside a helper of this package that is handed one of the two values
+				if cl, ok := in.(*ssa.Call); ok {
+					if g := cl.Call.StaticCallee(); g != nil && g.Blocks != nil && x.P.FuncRel(g) == "sample" && g != cf {
+						takes := false
+						for _, a := range cl.Call.Args {
+							if of(a, pa) || of(a, pb) {
+								takes = true
+							}
+						}
+						if takes {
+							eng.Instrs(g, func(i2 ssa.Instruction) {
+								if intToFloat(i2) {
+									bad = in
+								}
+							})
+						}
 					}
 				}
 				return eng.EvNone
